@@ -29,7 +29,9 @@ def c03(tier, seed):
     obs += so
     ao, acmd, alog, _ = units_verus.run_unit("bf_accessors")
     obs += ao
-    cmd = cmd + " ; " + vcmd + " ; " + lcmd + " ; " + pcmd + " ; " + scmd + " ; " + acmd
+    go_, gcmd_, glog_, _ = units_verus.run_unit("bf_getters")
+    obs += go_
+    cmd = cmd + " ; " + vcmd + " ; " + lcmd + " ; " + pcmd + " ; " + scmd + " ; " + acmd + " ; " + gcmd_
     prep = dict(prep, bf_alloc_unit=[dict(l, unit="bf_alloc") for l in vlog])
     meta = {
         "checker_cmd": cmd,
@@ -46,6 +48,7 @@ def c03(tier, seed):
             "bindgen/ir/comp.rs: CompInfo::is_packed (whether bit-fields are allocated with packed rules; callback iteration desugared by rule R16)",
             "bindgen/codegen/struct_layout.rs: StructLayoutTracker::pad_to_bitfield_unit, saw_bitfield_unit (unit layout; the unit lands at the clang offset of its first bit-field), align_to_latest_field and saw_field_with_layout (the running offset that placement is computed from: never rounded up inside a packed record)",
             "bindgen/codegen/mod.rs: the accessor-emitting statement of <Bitfield as FieldCodegen>::codegen and Bitfield::extend_ctor_impl (unit bf_accessors, rule R4q): getter, setter, raw getter, raw setter (wrapper-union and const-generic forms) and the constructor step all address the bit-field's own unit field, offset_into_unit and width, in that order",
+            "bindgen/ir/comp.rs: Bitfield::{offset, bitfield_width, is_public, offset_into_unit, width} (unit bf_getters): code generation reads the stored clang offset, width and offset-into-unit unchanged - for zero-width separators too",
             "bindgen/codegen/mod.rs: the unit-start closure of <BitfieldUnit as FieldCodegen>::codegen (unit bf_unit_start, rule R18 brace-less closure: unit start = clang offset of the field - its offset into the unit)",
         ],
         "extraction": [prep],
@@ -176,7 +179,7 @@ def _verus_prop(prop, tier, seed, unit_filters, meta_extra, extra_obs=None):
 
 
 def c02(tier, seed):
-    return _verus_prop("C02", tier, seed, [("layout", None, None), ("prim_types", None, None), ("packed", None, None), ("repr", None, None), ("clang_layout", None, None), ("union_repr", None, None), ("builtin_ty", None, None)], {
+    return _verus_prop("C02", tier, seed, [("layout", None, None), ("prim_types", None, None), ("packed", None, None), ("repr", None, None), ("clang_layout", None, None), ("union_repr", None, None), ("builtin_ty", None, None), ("bf_alloc", r"::bitfields_to_allocation_units(@clang_offsets)?::", None)], {
         "trusted_base": LAYOUT_TRUST,
         "functions_under_contract": LAYOUT_FNS + [
             "bindgen/codegen/helpers.rs: ast_ty::int_kind_rust_type, ast_ty::float_kind_rust_type (unit prim_types: fixed-width kinds get a Rust integer of the same width and sign; platform kinds the std::os::raw alias documented as equivalent; wchar_t / long double / __float128 a type of exactly the C size)",
@@ -186,6 +189,7 @@ def c02(tier, seed):
             "bindgen/codegen/mod.rs: utils::type_from_named (unit prim_types: the <stdint.h>/<stddef.h> typedef names map to the Rust primitive of the same width and signedness)",
             "bindgen/ir/context.rs: the kind-mapping statement of BindgenContext::build_builtin_ty (unit builtin_ty, let-statement R18): every libclang builtin type kind gets the bindgen kind of the same C type; complex only over floating types (found and repaired F12)",
             "bindgen/ir/comp.rs: CompInfo::is_rust_union and bindgen/codegen/mod.rs: wrap_union_field_if_needed (unit union_repr): a Rust `union` only for defined unions with --untagged-union whose members are all Copy or may be ManuallyDrop-wrapped; in it every member keeps the size/alignment of its C type; otherwise members are zero-sized markers over the blob of the tail statement",
+            "bindgen/ir/comp.rs: bitfields_to_allocation_units (unit bf_alloc, shared with C03: its two struct contracts): a bit-field unit is as large as the bits allocated to it demand, which is what places the members that follow it",
             "bindgen/ir/comp.rs: CompInfo::already_packed (unit packed: Some(true) exactly when dropping `packed` moves no field), CompInfo::is_packed (attribute, or a member more aligned than the record, or a vtable in a 1-aligned record)"],
         "assumptions": [
             "placement theorem (saw_field_with_layout post#4) region: not packed, not a union, clang reported the field offset (multiple of 8 bits, >= running offset, multiple of the field alignment), the Rust struct built so far ends at the tracker's running offset and that is a multiple of the previous field's alignment; the Rust type of the field has the alignment clang reports",
@@ -253,7 +257,7 @@ def c12(tier, seed):
         term += _changed_clauses(u)
     units = term + [("gen_errors", None, None), ("layout", None, r"^(safety|decreases.*)$"), ("bf_alloc", None, r"^(safety|decreases.*)$"), ("macro_type", None, r"^safety$"),
              ("edges", None, r"^safety$"), ("derive_gate", None, r"^safety$"), ("derives", None, r"^safety$"), ("fn_abi", None, r"^(safety|post#3)$"), ("constrain", None, r"^safety$"), ("prim_types", None, r"^safety$"), ("packed", None, r"^(safety|decreases.*)$"), ("blocklist", None, r"^safety$"), ("has_float", None, r"^safety$"), ("has_tp_array", None, r"^safety$"), ("has_destructor", None, r"^safety$"), ("lattice_insert", None, r"^safety$"),
-             ("lattice_constrain", r"::constrain::", r"^safety$"), ("link_name", r"::names_will_be_identical_after_mangling::", r"^safety$"), ("eval_int", None, r"^safety$"), ("bf_unit_start", None, r"^safety$"), ("resolver", None, None), ("builtin_ty", None, r"^safety$"), ("char_macro", None, r"^safety$"), ("clang_layout", None, r"^safety$"), ("traversal", None, r"^safety$"), ("trace_impls", None, r"^safety$"), ("enum_consts", None, None), ("template_params", None, r"^safety$")]
+             ("lattice_constrain", r"::constrain::", r"^safety$"), ("link_name", r"::names_will_be_identical_after_mangling::", r"^safety$"), ("eval_int", None, r"^safety$"), ("bf_unit_start", None, r"^safety$"), ("resolver", None, None), ("builtin_ty", None, r"^safety$"), ("char_macro", None, r"^safety$"), ("clang_layout", None, r"^safety$"), ("traversal", None, r"^safety$"), ("trace_impls", None, r"^safety$"), ("enum_consts", None, None), ("template_params", None, r"^safety$"), ("codegen_guards", None, None)]
     return _verus_prop("C12", tier, seed, units, {
         "trusted_base": LAYOUT_TRUST + ["alloc::fmt::format stubbed in the from_str witness harnesses (message text irrelevant)"],
         "functions_under_contract": ["bindgen/lib.rs: the input-path checks of Bindings::generate (missing -> NotExist, directory -> FolderAsHeader, unreadable -> InsufficientPermissions; file system uninterpreted) and the per-diagnostic step of parse() (severity Error or Fatal -> ClangDiagnostic error) -- blocks extracted by rule R18, unit gen_errors"] + LAYOUT_FNS + ["bindgen/ir/comp.rs: bitfields_to_allocation_units (no-clang-offset mode)", "and the functions of units macro_type, edges, derive_gate, derives, fn_abi (see C05, C07-C09, C14)",
@@ -261,6 +265,7 @@ def c12(tier, seed):
                                      "bindgen/ir/context.rs: ItemResolver::resolve (unit resolver): the reference/alias-following loop TERMINATES on every finite IR, cyclic or not (decreases: items not yet seen), never indexes outside the item table, and returns an item of the table",
                                      "bindgen/ir/context.rs: the kind-mapping statement of build_builtin_ty does not panic on any builtin kind (found and repaired F12: `_Complex int`)",
                                      "bindgen/ir/function.rs: FunctionSig::abi never accepts an ABI that cannot be printed (ClangAbi::Unknown -> UnsupportedAbi; found and repaired F11: Function::codegen and <ClangAbi as ToTokens> panicked on it); bindgen/ir/var.rs: the character-literal arm of Var::parse (found and repaired F10)",
+                                     "bindgen/codegen/mod.rs: the signature statement of Method::codegen_method and bindgen/ir/ty.rs: the constant-array arm of Type::from_clang_ty (unit codegen_guards): a method whose signature is not a function type (declared through a typedef) is left out, an array whose element type cannot be expressed gets opaque elements - neither aborts (found and repaired F29, F30)",
                                      "bindgen/codegen/mod.rs: the three naming statements of <Enum as CodeGenerator>::codegen (unit enum_consts, let-statements R18): the parent's canonical name is None exactly for top-level enums and neither `parent_canonical_name.as_ref().unwrap()` is reached with None; bindgen/ir/analysis/template_params.rs: UsedTemplateParameters::constrain and its helpers (unit template_params): the table `.expect()`s and the monotonicity `assert!` cannot fire given the table invariant",
                                      "bindgen/codegen/mod.rs: utils::names_will_be_identical_after_mangling (every slice index / range in bounds, for all name lengths); bindgen/ir/analysis/{has_vtable,sizedness}.rs: constrain (the two unreachable!() arms of SizednessAnalysis::constrain are unreachable given 'TypeKind::Opaque types are opaque' and 'no UnresolvedTypeRef after parsing'); clang::EvalResult::as_int; the bit-field unit-start closure (no underflow given offset_into_unit <= offset)"],
         "assumptions": [
@@ -280,7 +285,7 @@ INCRATE_TRUST = ["in-crate harness modules pulled in by cfg(kani) hook lines; Ty
 def c04(tier, seed):
     def extra():
         return units_incrate.run_spec(units_incrate.abi_spec())
-    return _verus_prop("C04", tier, seed, [("fnsig", None, None), ("ptr_lowering", None, None), ("fn_abi", r"::FunctionSig::(abi|is_variadic)::", None), ("link_name", None, None), ("method_wrapper", None, None), ("var_const", None, None), ("attrs", None, None), ("fn_args", None, None), ("mangling", None, None)], {
+    return _verus_prop("C04", tier, seed, [("fnsig", None, None), ("ptr_lowering", None, None), ("fn_abi", r"::FunctionSig::(abi|is_variadic)::", None), ("link_name", None, None), ("method_wrapper", None, None), ("var_const", None, None), ("attrs", None, None), ("fn_args", None, None), ("mangling", None, None), ("builtin_ty", None, None)], {
         "trusted_base": INCRATE_TRUST + ["calling-convention oracle: clang-c/Index.h CXCallingConv values x Rust reference ABI strings (kani_incrate/function_abi.rs)"],
         "functions_under_contract": ["bindgen/ir/function.rs: get_abi (Kani in-crate), FunctionSig::abi, FunctionSig::is_variadic (Verus unit fn_abi)",
                                      "bindgen/codegen/mod.rs: utils::fnsig_argument_type, utils::fnsig_return_ty_internal (Verus unit fnsig); the Pointer/Reference arm of <Type as TryToRustTy>::try_to_rust_ty (Verus unit ptr_lowering, block extracted by rule R18)",
@@ -289,6 +294,7 @@ def c04(tier, seed):
                                      "bindgen/codegen/mod.rs: the `let symbol = ..` statement of <Var as CodeGenerator>::codegen (Verus unit link_name, let-statement R18, verified against the contract of names_will_be_identical_after_mangling): an overridden link name is always spelled out with #[link_name] (found and repaired F13), otherwise the compiler's symbol is named unless it is the Rust name or its platform decoration",
                                      "bindgen/ir/function.rs: cursor_declares_other_function, args_from_ty_and_cursor (iterator pipeline turned into an index loop, rule R29), and the parameter-visitor closure, the `is_own_cursor` and the `args` statements of FunctionSig::from_ty (unit fn_args): ARITY - a function prototype gets exactly the parameters it declares, each of the declared type, and the parameters of an enclosing declaration (function returning a function pointer, pointer to such a function) are never taken for its own (found and repaired F21); the child visitor never recurses",
                                      "bindgen/ir/function.rs: cursor_mangling, is_itanium_thunk and bindgen/clang.rs: the ABI-kind statement of TargetInfo::new (unit mangling; while-let R19, str operations as Seq-specified env functions R21): of the symbols libclang lists for a C++ function the binding names the last one that is the function itself - for a destructor under the Itanium ABI the complete-object destructor (never the deleting one), never a this-adjusting or covariant-return thunk (found and repaired F23); the Microsoft rules apply only to *-msvc targets",
+                                     "bindgen/ir/context.rs: the kind-mapping statement of BindgenContext::build_builtin_ty (unit builtin_ty, shared with C02): a parameter or return value of a builtin C/C++ type gets the bindgen kind of that very type (char32_t is 32 bits wide, not 16)",
                                      "bindgen/clang.rs: the per-token predicate of Cursor::has_attrs (unit attrs, closure R18): a token of an unexposed attribute names `noreturn` / `_Noreturn` / `warn_unused_result` only when it is of the attribute's token kind and spells exactly that name",
                                      "bindgen/codegen/mod.rs: utils::names_will_be_identical_after_mangling (Verus unit link_name, all name lengths; std str/slice operations replaced by Seq-specified env functions, rule R21)"],
         "assumptions": ["get_abi: every u32 CXCallingConv value (loop-free, full domain)",
